@@ -604,7 +604,8 @@ pub(super) fn add(
         let rhs = operand_load(block, &instruction.operands()[2], bits)?;
 
         // perform operation
-        let src = il::Expression::add(lhs, rhs).unwrap();
+        // vector (SIMD/SVE) forms share the mnemonic but not the operand shapes
+        let src = il::Expression::add(lhs, rhs).map_err(|_| unsupported())?;
 
         // store result
         operand_store(block, &instruction.operands()[0], src)?;
@@ -631,7 +632,7 @@ pub(super) fn adds(
         let rhs = operand_load(block, &instruction.operands()[2], bits)?;
 
         // perform operation
-        let result = il::Expression::add(lhs.clone(), rhs.clone()).unwrap();
+        let result = il::Expression::add(lhs.clone(), rhs.clone()).map_err(|_| unsupported())?;
 
         let unsigned_sum = il::Expression::add(
             il::Expression::zext(72, lhs.clone()).unwrap(),
@@ -1392,7 +1393,7 @@ pub(super) fn sub(
         let rhs = operand_load(block, &instruction.operands()[2], bits)?;
 
         // perform operation
-        let src = il::Expression::sub(lhs, rhs).unwrap();
+        let src = il::Expression::sub(lhs, rhs).map_err(|_| unsupported())?;
 
         // store result
         operand_store(block, &instruction.operands()[0], src)?;
@@ -1419,7 +1420,7 @@ pub(super) fn subs(
         let rhs = operand_load(block, &instruction.operands()[2], bits)?;
 
         // perform operation
-        let result = il::Expression::sub(lhs.clone(), rhs.clone()).unwrap();
+        let result = il::Expression::sub(lhs.clone(), rhs.clone()).map_err(|_| unsupported())?;
 
         let unsigned_sum = il::Expression::sub(
             il::Expression::zext(72, lhs.clone()).unwrap(),
